@@ -488,7 +488,7 @@ pub fn case_strategy() -> impl Strategy<Value = MsgCase> {
 pub const RULE: &str = "programs = C06's pattern grammar (1-4 pattern-typed arguments) extended by 0-2 extra parameters {type without Debug, reference to it, &u32, &&u32, &mut u32, generic without / with Debug bound, slice of non-Debug values}; for each pattern one rejected and one accepted argument tuple of the finite domain are chosen and every mock-induced error kind is triggered on a fresh mock: no matching call patterns, inputs not matched in call order, explicit panic, value returned twice, no output available, wrong order, out of range, no mock implementation, cannot unmock, no default impl, plus a failed verification naming the pattern. Non-trivial = arity >= 2 with a reference parameter and a checked mismatch report; distinct = distinct case";
 
 fn spec<'a>(prelude: &'a str) -> Spec<'a, MsgCase> {
-    Spec { project: "C19", prelude, source: &source, judge: &judge, nbins: 16, max_shrink_steps: 30 }
+    Spec { project: "C19", prelude, source: &source, judge: &judge, nbins: 16, max_shrink_steps: 30, extra_deps: "" }
 }
 
 pub fn run(ctx: &Ctx) -> Verdict {
